@@ -23,7 +23,7 @@ pub fn run(ctx: &mut Ctx, _replay: Option<&[String]>) {
     for t in 0..8u32 {
         bitstrings.push((0..3).map(|i| t >> (2 - i) & 1 == 1).collect());
     }
-    for _ in 0..ctx.scale(200, 4000) {
+    for _ in 0..ctx.scale(200, 20000) {
         let len = rng.range(1, 40);
         bitstrings.push((0..len).map(|_| rng.chance(1, 2)).collect());
     }
@@ -62,7 +62,7 @@ pub fn run(ctx: &mut Ctx, _replay: Option<&[String]>) {
             }
         }
     }
-    for _ in 0..ctx.scale(6000, 200_000) {
+    for _ in 0..ctx.scale(6000, 1_000_000) {
         let s = (0.05f64.ln() + rng.f64_unit() * (10.0f64 / 0.05).ln()).exp();
         let re = 12.0 * rng.f64_unit() - 6.0;
         let im = 12.0 * rng.f64_unit() - 6.0;
